@@ -274,17 +274,20 @@ def qmapD (d : DMRS) : Except Err (List (Int × Int)) :=
   (d.links.filter (fun l => l.role = RESTRICTION_ROLE)).foldlM (fun acc l =>
     if l.start ∈ d.ids then .ok (dset l.stop l.start acc) else .error Err.keyError) []
 
+/-- one iteration of the loop over `d.quantification_pairs()` in `_dmrs_build_maps`. -/
+def ivStep (d : DMRS) (qmap : List (Int × Int)) (st : List (Int × Var) × VFac) (n : Node) :
+    List (Int × Var) × VFac :=
+  if n.id ∈ quantStarts d then st
+  else
+    let r := st.2.new n.type n.properties
+    let m1 := dset n.id r.1 st.1
+    (match dlookup n.id qmap with
+      | some q => dset q r.1 m1
+      | none => m1, r.2)
+
 /-- the loop over `d.quantification_pairs()` in `_dmrs_build_maps`. -/
 def buildIvs (d : DMRS) (qmap : List (Int × Int)) (vf : VFac) : List (Int × Var) × VFac :=
-  d.nodes.foldl (fun (st : List (Int × Var) × VFac) n =>
-    if n.id ∈ quantStarts d then st
-    else
-      let (iv, vf') := st.2.new n.type n.properties
-      let m1 := dset n.id iv st.1
-      let m2 := match dlookup n.id qmap with
-        | some q => dset q iv m1
-        | none => m1
-      (m2, vf')) ([], vf)
+  d.nodes.foldl (ivStep d qmap) ([], vf)
 
 structure BuildSt where
   vf : VFac
@@ -343,47 +346,88 @@ def fillVars (vars : List (Var × Props)) (top index : Option Var) (rels : List 
   let vs := rels.foldl (fun vs e => e.args.foldl (fun vs a => add vs a.2) (add vs e.label)) vs
   hcons.foldl (fun vs hc => add (add vs hc.lo) hc.hi) vs
 
+def vfac0 : VFac := { vid := 0, index := [], store := [] }
+
+/-- `top = vfac.new(H) if d.top is not None else None` (on a fresh factory starting at 0) -/
+def topNew (d : DMRS) : Option Var × VFac :=
+  match d.top with
+  | some _ => (some (vfac0.new (some HANDLE) []).1, (vfac0.new (some HANDLE) []).2)
+  | none => (none, vfac0)
+
+/-- `index = None if not d.index else id_to_iv[d.index]` -/
+def indexOf (d : DMRS) (idToIv : List (Int × Var)) : Except Err (Option Var) :=
+  match d.index with
+  | none => .ok none
+  | some i =>
+    if i = 0 then .ok none      -- `if not d.index`
+    else match dlookup i idToIv with
+      | some v => .ok (some v)
+      | none => .error .keyError
+
+/-- `if top is not None: hcons.append(qeq(top, _top))` -/
+def hcTop (top topLbl : Option Var) : List HCons :=
+  match top, topLbl with
+  | some t, some l => [⟨t, QEQ, l⟩]
+  | _, _ => []
+
+/-- the factory after `_dmrs_build_maps` reserved the ids of the scope labels -/
+def vfReserve (vf : VFac) (sc : List (Var × List Node)) : VFac :=
+  { vf with index := (sc.map (fun s => s.1.vid)).reverse ++ vf.index }
+
 /-- `mrs.from_dmrs(d)`; `chosen` = the scope labels the implementation's `conjoin` picked. -/
 def fromDmrs (chosen : List Var) (d : DMRS) : Except Err MRS :=
-  let vf0 : VFac := { vid := 0, index := [], store := [] }
-  let (top, vf1) : Option Var × VFac :=
-    match d.top with
-    | some _ => let (t, vf) := vf0.new (some HANDLE) []; (some t, vf)
-    | none => (none, vf0)
   match scopesCh chosen d with
   | .error e => .error e
-  | .ok (topLbl, sc) =>
+  | .ok tsc =>
     match nsArgsD d with
     | .error e => .error e
     | .ok ns =>
-      match scArgsD d sc with
+      match scArgsD d tsc.2 with
       | .error e => .error e
       | .ok scs =>
-        -- _dmrs_build_maps
-        let vf2 : VFac := { vf1 with index := (sc.map (fun s => s.1.vid)).reverse ++ vf1.index }
         match qmapD d with
         | .error e => .error e
         | .ok qmap =>
-          let (idToIv, vf3) := buildIvs d qmap vf2
-          let indexR : Except Err (Option Var) :=
-            match d.index with
-            | none => .ok none
-            | some i =>
-              if i = 0 then .ok none      -- `if not d.index`
-              else match dlookup i idToIv with
-                | some v => .ok (some v)
-                | none => .error .keyError
-          match indexR with
+          match indexOf d (buildIvs d qmap (vfReserve (topNew d).2 tsc.2)).1 with
           | .error e => .error e
           | .ok index =>
-            let hc0 : List HCons := match top, topLbl with
-              | some t, some l => [⟨t, QEQ, l⟩]
-              | _, _ => []
-            match d.nodes.foldlM (buildRel d sc idToIv ns scs)
-                { vf := vf3, hcons := hc0, rels := [] } with
+            match d.nodes.foldlM
+                (buildRel d tsc.2 (buildIvs d qmap (vfReserve (topNew d).2 tsc.2)).1 ns scs)
+                { vf := (buildIvs d qmap (vfReserve (topNew d).2 tsc.2)).2,
+                  hcons := hcTop (topNew d).1 tsc.1, rels := [] } with
             | .error e => .error e
             | .ok st =>
-              .ok { top := top, index := index, rels := st.rels, hcons := st.hcons, icons := [],
-                    variables := fillVars st.vf.store top index st.rels st.hcons }
+              .ok { top := (topNew d).1, index := index, rels := st.rels, hcons := st.hcons,
+                    icons := [],
+                    variables := fillVars st.vf.store (topNew d).1 index st.rels st.hcons }
+
+/-! ## The input space of the round-trip theorems (decidable, evaluated by the driver) -/
+
+/-- position of a predication (by its id) -/
+def posOf (m : MRS) (p : Pred) : Nat := m.ids.idxOf p.1
+
+/-- the representative map as lists of positions, in scope order -/
+def repsPos (m : MRS) (reps : Reps) : List (List Nat) := reps.map (fun s => s.2.map (posOf m))
+
+/-- roles of a predication are pairwise distinct (they are the keys of a `dict`) and none is
+`MOD` (DMRS reserves that role for the `MOD/EQ` link, `DMRS.arguments` skips it). -/
+def RolesOk (m : MRS) : Bool :=
+  m.rels.all (fun e => decide (e.args.map (·.1)).Nodup && !(e.args.any (fun a => a.1 == BARE_EQ_ROLE)))
+
+/-- every non-quantifier predication has an intrinsic variable whose sort `from_dmrs` reads as an
+argument target (`node.type in 'xeipu'`, a substring test). -/
+def IVSorts (m : MRS) : Bool :=
+  m.rels.all (fun e => e.isQuantifier ||
+    match e.iv with
+    | some v => isInfix v.sort.toList "xeipu".toList
+    | none => false)
+
+/-- every quantifier's RSTR argument produces a link (it is an intrinsic variable, or selects a
+scope that has a representative), so the node is still a quantifier in the DMRS. -/
+def RstrLinked (m : MRS) (reps : Reps) : Bool :=
+  m.rels.all (fun e => e.args.all (fun a => a.1 != RESTRICTION_ROLE || (ivToNid m a.2).isSome ||
+    match dlookup (scopalTarget m a.2).1 reps with
+    | some (_ :: _) => true
+    | _ => false))
 
 end Verif.C04
